@@ -1,5 +1,5 @@
 import os, sys
-from driver import Unit as U, LIBS, VERIF, log
+from driver import Unit as U, LIBS, VERIF, FLAGSETS, log
 
 sys.path.insert(0, os.path.join(VERIF, 'mon'))
 import gen_C17
@@ -11,8 +11,11 @@ FSW = ['-DGLM_FORCE_SWIZZLE']
 FOP = ['-DGLM_FORCE_SWIZZLE', '-DGLM_FORCE_INTRINSICS']
 
 
-def swz(name, form, tmask, qmask, flagset='plain', defs=()):
-    return U('C17_swz.' + name, SWZ, flagset, defs=['-DC17_FORM=%d' % form, '-DC17_TMASK=%d' % tmask, '-DC17_QMASK=%d' % qmask] + list(defs))
+def swz(name, form, tmask, qmask, flagset='plain', defs=(), smask=7):
+    return U('C17_swz.' + name, SWZ, flagset, defs=['-DC17_FORM=%d' % form, '-DC17_TMASK=%d' % tmask, '-DC17_QMASK=%d' % qmask, '-DC17_SMASK=%d' % smask] + list(defs))
+
+
+SETS = (('xyzw', 1), ('rgba', 2), ('stpq', 4))
 
 
 def ctor(cfg, kind, part, flagset='plain', suffix=''):
@@ -26,8 +29,27 @@ def make_pre(th):
     def pre(bdir, repo, units):
         """generate the enumerations into the build directory (the same for every seed; the seed only selects one tag assignment)"""
         gen_C17.generate(bdir, repo, th, log=log)
-        for u in units:
-            u.defs = [d for d in u.defs if not (d.startswith('-I') and os.sep + 'build' + os.sep in d)] + ['-I' + bdir]
+        def one(u):
+            u.defs = [d for d in u.defs if not (d.startswith('-I') and os.sep + 'build' + os.sep in d) and not d.startswith('-DC17_AVAIL_INC')] + ['-I' + bdir]
+            if '-DC17_FORM=2' in u.defs:
+                # operator-form unit: which (type, qualifier, L, N) read classes are a hard compile error inside glm in THIS configuration?
+                tmask = int([d for d in u.defs if d.startswith('-DC17_TMASK=')][0].split('=')[1])
+                qmask = int([d for d in u.defs if d.startswith('-DC17_QMASK=')][0].split('=')[1])
+                types = [t for t in TBIT if tmask & TBIT[t]]; quals = [q for q, b in (('ph', 1), ('ah', 2)) if qmask & b]
+                flags = [d for d in u.defs if not d.startswith('-DC17_') and not d.startswith('-I')]
+                bad = gen_C17.probe_swizzle_reads(repo, flags, bdir, u.name, types, quals, compiler=FLAGSETS[u.flagset][0],
+                                                    codegen=[f for f in FLAGSETS[u.flagset][1] if f.startswith('-O')])
+                inc = 'C17_avail_%s.inc' % u.name
+                with open(os.path.join(bdir, inc), 'w') as f:
+                    f.write('// generated: operator-swizzle read classes that do not compile in unit %s\n' % u.name)
+                    for (t, q, L, N), err in sorted(bad.items()):
+                        f.write('\tif(std::is_same<T,%s>::value && aligned==%s && L==%d && N==%d) return false; // %s\n' % (
+                            gen_C17.TYPES[t], 'true' if q == 'ah' else 'false', L, N, err[:160].replace('\\', '/')))
+                u.defs.append('-DC17_AVAIL_INC="%s"' % inc)
+                if bad: log('C17 probe %s: operator-swizzle reads that do not compile: %s' % (u.name, sorted(bad)))
+        from concurrent.futures import ThreadPoolExecutor
+        with ThreadPoolExecutor(max_workers=12) as ex:
+            list(ex.map(one, units))
     return pre
 
 
@@ -36,15 +58,18 @@ def spec(th, seed):
     units = []
     # -- operator-form swizzles (the compile-heavy units first)
     types = ['f32', 'f64', 'i32', 'u32'] + (['i8', 'b'] if th else [])
-    for t in types:
-        for qn, qm in (('packed', 1), ('aligned', 2)):
-            units.append(swz('op.%s.%s' % (t, qn), 2, TBIT[t], qm, defs=FOP))
-    units.append(swz('op.f32.aligned.avx', 2, 1, 2, defs=FOP + ['-mavx']))
+    # (one unit per element type x qualifier: instantiating a vec type whose union holds ~1000 swizzle proxies has a large fixed cost,
+    #  so splitting further, e.g. by letter set with C17_SMASK, does not pay)
     if th:
         for t in ('f32', 'f64', 'i32', 'u32'):
             for qn, qm in (('packed', 1), ('aligned', 2)):
                 units.append(swz('op.%s.%s.gsan' % (t, qn), 2, TBIT[t], qm, flagset='gsan', defs=FOP))
         units.append(swz('op.f32.aligned.avx.gsan', 2, 1, 2, flagset='gsan', defs=FOP + ['-mavx']))
+    for t in types:
+        for qn, qm in (('packed', 1), ('aligned', 2)):
+            units.append(swz('op.%s.%s' % (t, qn), 2, TBIT[t], qm, defs=FOP))
+    units.append(swz('op.f32.aligned.avx', 2, 1, 2, defs=FOP + ['-mavx']))
+    if th:
         units.append(swz('op.f32.clang', 2, 1, 3, flagset='clang', defs=FOP))
         units.append(swz('op.i32.clang', 2, 4, 3, flagset='clang', defs=FOP))
     # -- constructors
@@ -68,6 +93,10 @@ def spec(th, seed):
         units.append(swz('fn.clang', 1, 15, 1, flagset='clang', defs=FSW))
         units.append(swz('fn.gsan', 1, 15, 1, flagset='gsan', defs=FSW))
         units.append(swz('free.simd.gsan', 3, 15, 3, flagset='gsan', defs=['-DGLM_FORCE_INTRINSICS']))
+    only = os.environ.get('VERIF_C17_ONLY')      # development aid: regular expression selecting units by name
+    if only:
+        import re
+        units = [u for u in units if re.search(only, u.name)]
     return {
         'units': units, 'pre': make_pre(th), 'parallel_units': 4, 'sanitizer': bool(th), 'exhaustive': True,
         'rule': 'generated by mon/gen_C17.py at check time. Swizzles: every 2-, 3- and 4-letter word over xyzw, rgba and stpq whose letters exist in a '
